@@ -51,7 +51,9 @@ Record host := {
   h_str : vid -> vid;           (* str(v) *)
   h_eqc : vid -> vid;           (* representative of v's equality class: a == b iff h_eqc a = h_eqc b *)
   h_entstr : ename -> vid;      (* the string "DOMAIN.name" *)
-  h_bool : bool -> vid          (* True / False *)
+  h_bool : bool -> vid;         (* True / False *)
+  h_strattr : ident -> bool;    (* hasattr(str, k): every str - hence every StateVal - has this attribute (a str method) *)
+  h_pyattr : vid -> ident -> bool   (* hasattr(v, k) for a plain value v (e.g. 'on'.count, [1, 2].count) *)
 }.
 
 (* ---------- Home Assistant's state machine ---------- *)
@@ -166,11 +168,11 @@ Definition state_exist (svcargs : list (ident * ident)) (m : hamap) (nm : sname)
   | _ => false
   end.
 
-(* getattr(StateVal instance, k): instance __dict__, then the class (helper methods) *)
-Definition snap_getattr (d : attrs) (k : ident) : res pyval :=
+(* getattr(StateVal instance, k): instance __dict__, then the class (helper methods), then its base class str *)
+Definition snap_getattr (H : host) (d : attrs) (k : ident) : res pyval :=
   match alookup k d with
   | Some v => Ok (PVal v)
-  | None => if mem_ident k state_callable_attrs then Ok PFunc else Raise EAttributeError
+  | None => if mem_ident k state_callable_attrs || h_strattr H k then Ok PFunc else Raise EAttributeError
   end.
 
 Definition state_get (H : host) (svcargs : list (ident * ident)) (m : hamap) (nm : sname) : res pyval :=
@@ -186,7 +188,7 @@ Definition state_get (H : host) (svcargs : list (ident * ident)) (m : hamap) (nm
       | Some st =>
           if svc_method svcargs d k then Ok PFunc
           else match stateval_new H (d, n) st with
-               | PSnap _ dct => snap_getattr dct k
+               | PSnap _ dct => snap_getattr H dct k
                | _ => Raise EUnmodelled
                end
       end
